@@ -149,6 +149,8 @@ CatBig ==
   \cup Ids("nbgw", {<<3, 4>>}, {FALSE}) \cup Ids("bgsub", {<<3, 4, 5>>}, {FALSE})
   \cup Ids("bgsink", {<<3, 4>>}, B2) \cup Ids("cswait", {<<3, 4>>}, {FALSE})
 CatThorough == CatAll \cup CatBig
+CatQuick == CatAll \cup Ids("pipe4", {<<3, 0, 4, 0>>}, {TRUE}) \cup Ids("bg3", {<<3, 4, 5>>}, {FALSE})
+            \cup Ids("bgsub", {<<3, 4, 5>>}, {FALSE}) \cup Ids("bgsink", {<<3, 4>>}, {TRUE})
 \* scripts of the negative configurations (one is enough to exhibit each deviation)
 CatNegWait == Ids("sub", {<<5>>}, {FALSE}) \cup Ids("bgfg", {<<3, 4>>}, {FALSE})
 CatNegPipe == Ids("pipe2", {<<3, 4>>}, {FALSE})
@@ -503,32 +505,34 @@ Step(p) ==
   /\ IF Kind(S, p) = "reapany" THEN \E c \in ChangedKids(S, p) : S' = Apply(S, p, c)
      ELSE S' = Apply(S, p, 0)
 
-On(p, tags) == S.st[p] = "Run" /\ Tag(S, p) \in tags /\ Step(p)
+Is(p, tags) == S.st[p] = "Run" /\ Tag(S, p) \in tags
 
 \* one named action per kind of step (coverage is reported per action)
-ASimple(p)    == On(p, {"st", "pipe", "wait"})
-AProbe(p)     == On(p, {"pr"})
-ARead(p)      == On(p, {"rd"})
-AWrite(p)     == On(p, {"wr"})
-AForkSub(p)   == On(p, {"sub"})
-AForkCs(p)    == On(p, {"cs"})
-AForkBg(p)    == On(p, {"bg"})
-AForkStage(p) == On(p, {"pf"})
-AReadEof(p)   == On(p, {"rdeof"})
-AEnable(p)    == On(p, {"en", "en2"})
-APollFg(p)    == On(p, {"poll", "pollx"}) /\ S.ph[p].m = "fg"
-APollAny(p)   == On(p, {"poll", "pollx"}) /\ S.ph[p].m = "wb"
-AWake(p)      == On(p, {"slp", "zz", "win"})
-AWaitChk(p)   == On(p, {"wchk"})
-AExit(p)      == On(p, {"exit"})
+ASimple(p)    == Is(p, {"st", "pipe", "wait"}) /\ Step(p)
+AProbe(p)     == Is(p, {"pr"}) /\ Step(p)
+ARead(p)      == Is(p, {"rd"}) /\ Step(p)
+AWrite(p)     == Is(p, {"wr"}) /\ Step(p)
+AForkSub(p)   == Is(p, {"sub"}) /\ Step(p)
+AForkCs(p)    == Is(p, {"cs"}) /\ Step(p)
+AForkBg(p)    == Is(p, {"bg"}) /\ Step(p)
+AForkStage(p) == Is(p, {"pf"}) /\ Step(p)
+AReadEof(p)   == Is(p, {"rdeof"}) /\ Step(p)
+AEnable(p)    == Is(p, {"en", "en2"}) /\ Step(p)
+APollFg(p)    == Is(p, {"poll", "pollx"}) /\ S.ph[p].m = "fg" /\ Kind(S, p) = "silent" /\ Step(p)
+AReapFg(p)    == Is(p, {"poll", "pollx"}) /\ S.ph[p].m = "fg" /\ Kind(S, p) = "reap" /\ Step(p)
+APollAny(p)   == Is(p, {"poll", "pollx"}) /\ S.ph[p].m = "wb" /\ Kind(S, p) = "silent" /\ Step(p)
+AReapAny(p)   == Is(p, {"poll", "pollx"}) /\ S.ph[p].m = "wb" /\ Kind(S, p) = "reapany" /\ Step(p)
+AWake(p)      == Is(p, {"slp", "zz", "win"}) /\ Step(p)
+AWaitChk(p)   == Is(p, {"wchk"}) /\ Step(p)
+AExit(p)      == Is(p, {"exit"}) /\ Step(p)
 ACollect(p, c) == Collectable(S, p, c) /\ S' = DoCollect(S, p, c)
 Done          == Terminated(S) /\ UNCHANGED S
 
 Next ==
   \/ \E p \in Pids :
        \/ ASimple(p) \/ AProbe(p) \/ ARead(p) \/ AWrite(p) \/ AForkSub(p) \/ AForkCs(p) \/ AForkBg(p)
-       \/ AForkStage(p) \/ AReadEof(p) \/ AEnable(p) \/ APollFg(p) \/ APollAny(p) \/ AWake(p)
-       \/ AWaitChk(p) \/ AExit(p)
+       \/ AForkStage(p) \/ AReadEof(p) \/ AEnable(p) \/ APollFg(p) \/ AReapFg(p) \/ APollAny(p)
+       \/ AReapAny(p) \/ AWake(p) \/ AWaitChk(p) \/ AExit(p)
   \/ \E p, c \in Pids : ACollect(p, c)
   \/ Done
 
